@@ -311,9 +311,14 @@ func c02RunBatch(m *vk.M, b int, racing bool) {
 func c02CustomChain(c *c02Ctx, b int, short time.Duration, r *rand.Rand) {
 	for _, d := range []time.Duration{c02LongTimeout, short} {
 		chn := chain.New(handler.MaxConns(8), handler.RecoverHandler, handler.TimeoutHandler(d))
+		if b%8 == 5 {
+			// recover layer OUTSIDE MaxConns: the panic unwinds through MaxConns, which must
+			// still give its slot back (2 slots, 8 panics, each followed by an ordinary request)
+			chn = chain.New(handler.RecoverHandler, handler.MaxConns(2), handler.TimeoutHandler(d))
+		}
 		tag := fmt.Sprintf("b%dcc%d", b, d/time.Millisecond)
 		c02LogOnce.Do(logx.Disable)
-		e, err := c02NewEnv(tag, Config{}, []c02Group{{Class: "cc", Method: http.MethodGet, N: 6, Timeout: d}}, WithChain(chn))
+		e, err := c02NewEnv(tag, Config{}, []c02Group{{Class: "cc", Method: http.MethodGet, N: 6, Timeout: d, NoBreaker: true}}, WithChain(chn))
 		if err != nil {
 			c.m.Inconclusive("custom chain: %v", err)
 			return
@@ -327,7 +332,11 @@ func c02CustomChain(c *c02Ctx, b int, short time.Duration, r *rand.Rand) {
 		if d == c02LongTimeout {
 			for i := 0; i < 8; i++ {
 				mode := []string{"first", "hdrs", "committed", "any"}[i%4]
-				if !c02ScPanicLenient(c, e, do, rts[i%len(rts)], c02GenPanicAt(r, mode, c02RandPanic(r).V), r) && c.m.ViolCount() > 0 {
+				rt := rts[i%len(rts)]
+				if b%8 == 5 {
+					rt = rts[0] // one route, one latch
+				}
+				if !c02ScPanicLenient(c, e, do, rt, c02GenPanicAt(r, mode, c02RandPanic(r).V), r) && c.m.ViolCount() > 0 {
 					return
 				}
 			}
@@ -376,6 +385,7 @@ func TestVerifC02Chain(t *testing.T) {
 	c02RunBatches(m, 0, n, 6, false)
 	m.Count("route_groups_registered_via_AddRoute", atomic.LoadInt64(&c02AddRouteGroups))
 	m.Count("user_middleware_calls", atomic.LoadInt64(&c02UserMiddlewareCalls))
+	m.Count("scripts_run_in_use_middleware", atomic.LoadInt64(&c02ScriptsRunInMiddleware))
 	c02ErrModeBatches(m, n, vk.N(2, 20), false)
 }
 
